@@ -79,6 +79,10 @@ CHECKS = {
             "Generated G-struct / textbook expressions with author ids on no, some or all elements (plain, with spaces, looking like generated ids, with XML special characters, 8% with a duplicated id); every element of the returned MathML has an id, ids are distinct, an author id on a token stays on an element showing that token's text and a uniquely identifiable token keeps its id, an author id on a 2-D element stays on an element of that kind; every id in bookmark marks (SSML/SAPI5), get_navigation_mathml_id after moves and get_navigation_node_from_braille_position is an id of the returned MathML.",
             "Id migration is not judged when the author's ids are themselves ambiguous (duplicates): only distinctness is. Content inside annotation elements and mphantom is not displayed and is not tracked.",
             "DESIGN.md 3/C09"),
+    "C14": ("fault injection on a private copy of the rules directory: exhaustive enumeration (every reachable file of the default configuration x 8 basic fault kinds x before/after first load) plus property-based generation of (configuration, file, fault, timing, CheckRuleFiles mode, repair mode) sequences; reference = fresh session on the pristine rules",
+            "Enumerated and generated fault sequences on a private copy of Rules/ (deleted, empty, truncated at a byte or at an entry, wrong top-level type, invalid xpath, unknown key, wrong-type value or entry, invalid UTF-8, directory in place of the file, missing rules directory): no call panics; the first error a caller gets for a failing load names the faulted file; after the repair (bytes restored with a newer time stamp and CheckRuleFiles=All, or set_rules_dir to the pristine or the same directory) set_mathml, speech, overview, braille, two navigation moves and navigation braille equal a fresh session on the pristine rules.",
+            "Level fault_enumeration for the enumerated part (reported separately in the evidence: stream 'explicit'); the rest is exploration. Match-time failures (a rule or variable missing from a well-formed but shortened or fall-back file) and 'MathML has not been set' after a failed set_mathml are not load errors and need not name the file. Time stamps are set explicitly and strictly increasing. A fault that stays invisible is a trivial case.",
+            "DESIGN.md 3/C14"),
 }
 
 NOT_YET = "check not built yet in this round (machinery in progress; see DESIGN.md section 7 build order)"
@@ -96,7 +100,7 @@ def main():
             "evidence_file": f"/verif/evidence/{pid}.json",
             "replay_cmd_template": f"./check replay {pid} {{path}}",
             "engine": "mcv",
-            "level_claimed": {"category": "exploration", "text": text, "design_ref": ref},
+            "level_claimed": {"category": "fault_enumeration" if pid == "C14" else "exploration", "text": text, "design_ref": ref},
             "level_note": note,
             "technique": tech,
         })
